@@ -451,6 +451,12 @@ def run(tier, rep):
                 add(op, [b, a], 'xc')
         for op in ('neg', 'pos'):
             add(op, [a], 'c1')
+    # complex against ints that no float holds exactly or at all: == and != are exact and never overflow, arithmetic overflows
+    for a in (1j, complex(1, 0), complex(2.0 ** 53, 0), complex(0, 0), complex(1e308, 0), complex(2.0 ** 53, 1.0), complex(-(2.0 ** 63), 0)):
+        for b in (2 ** 53, 2 ** 53 + 1, 2 ** 53 - 1, -(2 ** 63), -(2 ** 63) - 1, 10 ** 400, -(10 ** 400), 2 ** 1024, 2 ** 1023, 2 ** 1024 - 2 ** 970, 0, 1):
+            for op in ('eq', 'ne', 'add', 'sub', 'mul', 'truediv'):
+                add(op, [a, b], 'cx-bigint')
+                add(op, [b, a], 'xc-bigint')
     # ---------------- random bit patterns ----------------
     nrand = 2000 if tier == 'quick' else 120000
 
